@@ -1,4 +1,5 @@
 import VermouthModel.C15
+import VermouthModel.C15_Cli
 open Proto C15
 
 /-
@@ -102,6 +103,56 @@ def encOutcome : Outcome → String
   | .nanWarning => "nanwarn"
   | .bonds bs => "bonds " ++ encList (bs.map encBond)
 
+/-
+request:  cli <elastic> <go> <toFF> <ef> <el> <eu> <ea> <ep> <em> <ermd> <eb> <eunit> <probes>
+  the six numbers: [ n d ] or - (option not given); ermd / eb / eunit: string or - ; probes: [ resid ... ]
+response: usage | noelastic | errint | errfaulty |
+          proc merge=<0|1> sel=<default|list> <names> <lower> <upper> <a> <p> <base> <minf> <rmd|-> dom=<0|1|2> <table>
+  table: for a region criterion its value on every ordered pair of probe residues
+-/
+def optRatOf (t : Tok) : Option (Option Rat) :=
+  match t with
+  | Tok.none => some none
+  | _ => (ratOf t).map some
+
+def optCharsOf (t : Tok) : Option (Option (List Char)) :=
+  match t with
+  | Tok.none => some none
+  | Tok.str s => some (some s.toList)
+  | _ => none
+
+def boolOf (t : Tok) : Option Bool :=
+  match t with
+  | Tok.int 0 => some false
+  | Tok.int 1 => some true
+  | _ => none
+
+def probeAtom (r : Int) : Atom := { (default : Atom) with oldResid := some r }
+
+def encCli (probes : List Int) : CliResult → String
+  | .usageError => "usage"
+  | .noElastic => "noelastic"
+  | .valueError true => "errfaulty"
+  | .valueError false => "errint"
+  | .processor m d p =>
+      let (kind, table) : String × List String :=
+        match p.dom with
+        | .always => ("0", [])
+        | .chain => ("1", [])
+        | .regions rs => ("2", probes.flatMap fun a => probes.map fun b =>
+            encBool (crit (.regions rs) (probeAtom a) (probeAtom b)))
+      " ".intercalate ["proc", "merge=" ++ encBool m, "sel=" ++ (if d then "default" else "list"),
+        encList (p.names.map encStr), encRat p.lower, encRat p.upper, encRat p.decayFactor, encRat p.decayPower,
+        encRat p.base, encRat p.minForce, encOptInt p.resMinDist, "dom=" ++ kind, encList table]
+
+def encUnit : UnitChoice → String
+  | .molecule => "molecule"
+  | .all => "all"
+  | .chain => "chain"
+  | .regions rs => "regions " ++ encList (rs.map fun r => encList [encInt r.1, encInt r.2])
+  | .errInt => "errint"
+  | .errFaulty => "errfaulty"
+
 def handle (_ : Unit) (toks : List Tok) : Unit × String :=
   let r : Option String :=
     match toks with
@@ -128,6 +179,17 @@ def handle (_ : Unit) (toks : List Tok) : Unit × String :=
         let a : Atom := { (default : Atom) with oldResid := some (← ra.int?) }
         let b : Atom := { (default : Atom) with oldResid := some (← rb.int?) }
         pure (encBool (crit (.regions regs) a b))
+    | [Tok.str "cli", el, go, ff, ef, lo, up, a, pw, em, ermd, eb, eunit, probes] => do
+        let args : CliArgs :=
+          { elastic := ← boolOf el, go := ← boolOf go, toFF := (← ff.str?).toList, ef := ← optRatOf ef,
+            el := ← optRatOf lo, eu := ← optRatOf up, ea := ← optRatOf a, ep := ← optRatOf pw, em := ← optRatOf em,
+            ermd := ← optCharsOf ermd, eb := ← optCharsOf eb, eunit := ← optCharsOf eunit }
+        pure (encCli (← ints? probes) (cliBuild args))
+    | [Tok.str "unit", s] => do pure (encUnit (parseUnit (← s.str?).toList))
+    | [Tok.str "pyint", s] => do pure (encOptInt (pyInt (← s.str?).toList))
+    | [Tok.str "render", rs] => do
+        let regs ← (← rs.list?).mapM pairOf
+        pure (encStr (String.ofList (renderRegions regs)) ++ " " ++ encUnit (parseUnit (renderRegions regs)))
     | _ => none
   ((), r.getD "bad-op")
 
